@@ -258,22 +258,27 @@ func contentRoot(m *model) common.Hash {
 		if !ac.exists {
 			continue
 		}
-		st, _ := gtrie.New(gcommon.Hash{}, gtrie.NewDatabase(gmem.New()))
+		var st *gtrie.Trie
+		if ac.st != [NS]int{} {
+			st, _ = gtrie.New(gcommon.Hash{}, gtrie.NewDatabase(gmem.New()))
+		}
 		for s := 0; s < NS; s++ {
 			if ac.st[s] != 0 {
 				v := vals[ac.st[s]]
 				enc, _ := grlp.EncodeToBytes(bytes.TrimLeft(v[:], "\x00"))
-				k := keccak(slots[s][:])
-				st.Update(k[:], enc)
+				st.Update(slotHash[s][:], enc)
 			}
 		}
-		ch := keccak(ac.code)
-		enc, err := grlp.EncodeToBytes(&gstate.Account{Nonce: ac.nonce, Balance: ac.bal, Root: st.Hash(), CodeHash: ch[:]})
+		ch := codeHash[string(ac.code)]
+		root := gcommon.Hash(types.EmptyRootHash)
+		if ac.st != [NS]int{} {
+			root = st.Hash()
+		}
+		enc, err := grlp.EncodeToBytes(&gstate.Account{Nonce: ac.nonce, Balance: ac.bal, Root: root, CodeHash: ch[:]})
 		if err != nil {
 			panic(err)
 		}
-		k := keccak(addrs[i][:])
-		tr.Update(k[:], enc)
+		tr.Update(addrHash[i][:], enc)
 	}
 	return common.Hash(tr.Hash())
 }
@@ -379,7 +384,7 @@ func wantContent(m *model) string {
 		if !ac.exists {
 			continue
 		}
-		ch := keccak(ac.code)
+		ch := codeHash[string(ac.code)]
 		line := fmt.Sprintf("a%d n=%d b=%v c=%x", i, ac.nonce, ac.bal, ch[:4])
 		var sl []string
 		for s := 0; s < NS; s++ {
@@ -398,6 +403,83 @@ func wantContent(m *model) string {
 	return strings.Join(out, "\n")
 }
 
+// modelAccount returns the yellow-paper encoding of the model's account i (nil if absent) and its storage root.
+func modelAccount(m *model, i int) ([]byte, gcommon.Hash) {
+	ac := &m.acc[i]
+	if !ac.exists {
+		return nil, gcommon.Hash{}
+	}
+	root := gcommon.Hash(types.EmptyRootHash)
+	if ac.st != [NS]int{} {
+		st, _ := gtrie.New(gcommon.Hash{}, gtrie.NewDatabase(gmem.New()))
+		for s := 0; s < NS; s++ {
+			if ac.st[s] != 0 {
+				v := vals[ac.st[s]]
+				enc, _ := grlp.EncodeToBytes(bytes.TrimLeft(v[:], "\x00"))
+				st.Update(slotHash[s][:], enc)
+			}
+		}
+		root = st.Hash()
+	}
+	ch := codeHash[string(ac.code)]
+	enc, err := grlp.EncodeToBytes(&gstate.Account{Nonce: ac.nonce, Balance: ac.bal, Root: root, CodeHash: ch[:]})
+	if err != nil {
+		panic(err)
+	}
+	return enc, root
+}
+
+// checkProofs verifies GetProof / GetStorageProof of a state opened on a committed root with go-ethereum's verifier
+// against the model's content. It returns a description of the first mismatch.
+func checkProofs(s *state.StateDB, root common.Hash, m *model, slot int) string {
+	for i, a := range addrs {
+		want, sroot := modelAccount(m, i)
+		proof, err := s.GetProof(a)
+		if err != nil {
+			return fmt.Sprintf("GetProof(a%d): %v", i, err)
+		}
+		pdb := gmem.New()
+		for _, n := range proof {
+			h := keccak(n)
+			pdb.Put(h[:], n)
+		}
+		got, err := gtrie.VerifyProof(gcommon.Hash(root), addrHash[i][:], pdb)
+		if want == nil && len(proof) == 0 && root == types.EmptyRootHash {
+			continue // the empty trie has no node to prove anything with
+		}
+		if err != nil || !bytes.Equal(got, want) {
+			return fmt.Sprintf("GetProof(a%d) verifies to %x (%v), committed account is %x", i, got, err, want)
+		}
+		if want == nil || i >= NA {
+			continue
+		}
+		sp, err := s.GetStorageProof(a, slots[slot])
+		if err != nil {
+			return fmt.Sprintf("GetStorageProof(a%d,s%d): %v", i, slot, err)
+		}
+		var wantSlot []byte
+		if v := m.acc[i].st[slot]; v != 0 {
+			wantSlot, _ = grlp.EncodeToBytes(bytes.TrimLeft(vals[v][:], "\x00"))
+		}
+		if sroot == gcommon.Hash(types.EmptyRootHash) {
+			if len(sp) != 0 {
+				return fmt.Sprintf("GetStorageProof(a%d,s%d) has %d nodes for an empty storage trie", i, slot, len(sp))
+			}
+			continue
+		}
+		sdb := gmem.New()
+		for _, n := range sp {
+			h := keccak(n)
+			sdb.Put(h[:], n)
+		}
+		gotSlot, err := gtrie.VerifyProof(sroot, slotHash[slot][:], sdb)
+		if err != nil || !bytes.Equal(gotSlot, wantSlot) {
+			return fmt.Sprintf("GetStorageProof(a%d,s%d) verifies to %x (%v) below storage root %x, committed slot is %x", i, slot, gotSlot, err, sroot, wantSlot)
+		}
+	}
+	return ""
+}
+
 var hashedAddr, hashedSlot = map[[32]byte]string{}, map[[32]byte]string{}
 
 func init() {
@@ -406,6 +488,9 @@ func init() {
 	}
 	for i, s := range slots {
 		hashedSlot[keccak(s[:])] = fmt.Sprintf("s%d", i)
+	}
+	if gcommon.Hash(types.EmptyRootHash) != gcommon.HexToHash("56e81f171bcc55a6ff8345e692c0f86e5b48e01b996cadc001622fb5e363b421") {
+		panic("empty root constant")
 	}
 }
 
